@@ -4,9 +4,9 @@ namespace Mast.Ptr
 open Mast.Heap
 
 /-- the program never returns an error (it may panic, get stuck or run out of fuel) -/
-def NoErr {α : Type} (x : M α) : Prop := ∀ s s', x s ≠ .err s'
+def NoErrR {α : Type} (x : M α) : Prop := ∀ s s', x s ≠ .err s'
 
-theorem NoErr.bind {α β : Type} {x : M α} {f : α → M β} (hx : NoErr x) (hf : ∀ a, NoErr (f a)) : NoErr (x >>= f) := by
+theorem NoErrR.bind {α β : Type} {x : M α} {f : α → M β} (hx : NoErrR x) (hf : ∀ a, NoErrR (f a)) : NoErrR (x >>= f) := by
   intro s s' h
   change M.bind x f s = .err s' at h
   unfold M.bind at h
@@ -17,70 +17,70 @@ theorem NoErr.bind {α β : Type} {x : M α} {f : α → M β} (hx : NoErr x) (h
   | stuck => rw [hxs] at h; cases h
   | oof => rw [hxs] at h; cases h
 
-theorem NoErr.pure {α : Type} (a : α) : NoErr (Pure.pure a : M α) := by
+theorem NoErrR.pure {α : Type} (a : α) : NoErrR (Pure.pure a : M α) := by
   intro s s' h; cases h
-theorem NoErr.panic {α : Type} : NoErr (panicE : M α) := by
+theorem NoErrR.panic {α : Type} : NoErrR (panicE : M α) := by
   intro s s' h; cases h
-theorem NoErr.read (a : Nat) : NoErr (read a) := by
+theorem NoErrR.read (a : Nat) : NoErrR (read a) := by
   intro s s' h; unfold Ptr.read at h; split at h <;> cases h
-theorem NoErr.alloc (nd : MNode) : NoErr (alloc nd) := by
+theorem NoErrR.alloc (nd : MNode) : NoErrR (alloc nd) := by
   intro s s' h; unfold Ptr.alloc at h; split at h <;> cases h
-theorem NoErr.write (m a : Nat) (nd : MNode) : NoErr (write m a nd) := by
+theorem NoErrR.write (m a : Nat) (nd : MNode) : NoErrR (write m a nd) := by
   intro s s' h; unfold Ptr.write at h; split at h <;> cases h
 
-theorem NoErr.toMut (m a : Nat) : NoErr (toMut m a) := by
+theorem NoErrR.toMut (m a : Nat) : NoErrR (toMut m a) := by
   unfold Ptr.toMut
-  refine NoErr.bind (NoErr.read a) (fun nd => ?_)
+  refine NoErrR.bind (NoErrR.read a) (fun nd => ?_)
   split
-  · exact NoErr.panic
+  · exact NoErrR.panic
   · split
-    · exact NoErr.pure _
-    · exact NoErr.alloc _
+    · exact NoErrR.pure _
+    · exact NoErrR.alloc _
 
-theorem NoErr.mutPath (m : Nat) : ∀ q, NoErr (mutPath m q) := by
+theorem NoErrR.mutPath (m : Nat) : ∀ q, NoErrR (mutPath m q) := by
   intro q
   induction q with
-  | nil => unfold Ptr.mutPath; exact NoErr.pure _
+  | nil => unfold Ptr.mutPath; exact NoErrR.pure _
   | cons x rest ih =>
     obtain ⟨a, i⟩ := x
     unfold Ptr.mutPath
-    refine NoErr.bind (NoErr.read a) (fun nd => ?_)
-    refine NoErr.bind ?_ (fun a' => NoErr.bind ih (fun _ => NoErr.pure _))
+    refine NoErrR.bind (NoErrR.read a) (fun nd => ?_)
+    refine NoErrR.bind ?_ (fun a' => NoErrR.bind ih (fun _ => NoErrR.pure _))
     split
-    · exact NoErr.pure _
-    · exact NoErr.bind (NoErr.toMut m a) (fun a' => NoErr.bind (NoErr.read a')
-        (fun nd' => NoErr.bind (NoErr.write _ _ _) (fun _ => NoErr.pure _)))
+    · exact NoErrR.pure _
+    · exact NoErrR.bind (NoErrR.toMut m a) (fun a' => NoErrR.bind (NoErrR.read a')
+        (fun nd' => NoErrR.bind (NoErrR.write _ _ _) (fun _ => NoErrR.pure _)))
 
-theorem NoErr.relink (m : Nat) : ∀ q, NoErr (relink m q) := by
+theorem NoErrR.relink (m : Nat) : ∀ q, NoErrR (relink m q) := by
   intro q
   induction q with
-  | nil => unfold Ptr.relink; exact NoErr.pure _
+  | nil => unfold Ptr.relink; exact NoErrR.pure _
   | cons x rest ih =>
     obtain ⟨a, i⟩ := x
     cases rest with
-    | nil => unfold Ptr.relink; exact NoErr.pure _
+    | nil => unfold Ptr.relink; exact NoErrR.pure _
     | cons y rest' =>
       obtain ⟨b, j⟩ := y
       unfold Ptr.relink
-      refine NoErr.bind ih (fun _ => NoErr.bind (NoErr.read b) (fun cnd => NoErr.bind (NoErr.read a) (fun nd => ?_)))
+      refine NoErrR.bind ih (fun _ => NoErrR.bind (NoErrR.read b) (fun cnd => NoErrR.bind (NoErrR.read a) (fun nd => ?_)))
       split
-      · exact NoErr.panic
-      · exact NoErr.write _ _ _
+      · exact NoErrR.panic
+      · exact NoErrR.write _ _ _
 
-theorem NoErr.savePath (m : Nat) (q : List (Nat × Nat)) : NoErr (savePath m q) := by
+theorem NoErrR.savePath (m : Nat) (q : List (Nat × Nat)) : NoErrR (savePath m q) := by
   unfold Ptr.savePath
-  refine NoErr.bind (NoErr.mutPath m q) (fun p => NoErr.bind (NoErr.relink m p) (fun _ => ?_))
+  refine NoErrR.bind (NoErrR.mutPath m q) (fun p => NoErrR.bind (NoErrR.relink m p) (fun _ => ?_))
   split
-  · exact NoErr.panic
-  · exact NoErr.pure _
+  · exact NoErrR.panic
+  · exact NoErrR.pure _
 
-theorem NoErr.insertCommit (t : PTree) (p : InsPlan) (key val : Nat) : NoErr (insertCommit t p key val) := by
+theorem NoErrR.insertCommit (t : PTree) (p : InsPlan) (key val : Nat) : NoErrR (insertCommit t p key val) := by
   unfold Ptr.insertCommit
-  refine NoErr.bind (NoErr.toMut _ _) (fun a' => NoErr.bind (NoErr.read a') (fun nd => ?_))
+  refine NoErrR.bind (NoErrR.toMut _ _) (fun a' => NoErrR.bind (NoErrR.read a') (fun nd => ?_))
   dsimp only
   split
-  · exact NoErr.bind (NoErr.write _ _ _) (fun _ => NoErr.savePath _ _)
-  · exact NoErr.bind (NoErr.write _ _ _) (fun _ => NoErr.savePath _ _)
+  · exact NoErrR.bind (NoErrR.write _ _ _) (fun _ => NoErrR.savePath _ _)
+  · exact NoErrR.bind (NoErrR.write _ _ _) (fun _ => NoErrR.savePath _ _)
 
 /-- `Insert` ending in an error: either the tree is untouched (the plan failed: a load or the layer callback),
     or the entry is installed — root replaced, `size` not yet incremented, no growth — and the grow loop failed
@@ -124,7 +124,7 @@ theorem insert_err_refines (E : Env) (fuel g : Nat) (s s' : PS) (t t' : PTree) (
     · rw [if_neg hps] at h
       have hcs := insertCommit_spec t p k v s s1 x t.height (min (E.layer k) t.height) hg1 hgr1.toStep hown hplan
       cases hcm : insertCommit t p k v s1 with
-      | err s2 => exact absurd hcm (NoErr.insertCommit t p k v s1 s2)
+      | err s2 => exact absurd hcm (NoErrR.insertCommit t p k v s1 s2)
       | panic => rw [hcm] at h; simp at h
       | stuck => rw [hcm] at h; simp at h
       | oof => rw [hcm] at h; simp at h
